@@ -1291,9 +1291,11 @@ end Primaite.Power
 namespace Primaite.Power
 open Primaite.Gen.Power
 
-/-- the node classes the property names (plus `printer`), each with its regenerated node-level route table -/
+/-- the node classes the property names (plus `host-node` and `printer`): every instantiable class below `Node` that
+declares a discriminator (see `C12_gen_class_inventory`), each with its regenerated node-level route table -/
 theorem C12_gen_classes :
-    classTables.map (·.1) = ["computer", "server", "printer", "switch", "router", "firewall", "wireless-router"] := by
+    classTables.map (·.1) =
+      ["host-node", "computer", "printer", "server", "router", "switch", "firewall", "wireless-router"] := by
   decide
 
 /-- **the regenerated table obligation**: in every node class every node-level route carries the node-is-on
